@@ -9,7 +9,7 @@ EXPLANATION = ('POLARITY rule on every state-changing site: MH: the only store o
                's\' and U < min(1, n\'/n), candidate inside the tree replaced only under U < n\'\'/max(n\'+n\'\',1) (threshold proportional to n\'\'); negated forms (!(a <= b)), '
                'min/max based selection or partial_cmp().unwrap() on these sites are violations; float->float conversions on these paths checked by type. '
                'Numeric behaviour of burn kernels on NaN/inf (trusted table) and absence of hangs on adversarial targets are not decided.')
-FLOORS = {'obligations': 9}   # counted on the reference tree; fewer instantiated obligations is reported, never passed silently
+FLOORS = {'obligations': 12}   # counted on the reference tree; fewer instantiated obligations is reported, never passed silently
 TECHNIQUE = 'polarity analysis of accept conditions over value-flow terms (ordered-comparison true edge, sign of the candidate density term), selection-only rule'
 
 
@@ -34,6 +34,7 @@ def run(ctx):
     hmc(ctx)
     nuts(ctx)
     conversions(ctx)
+    progress(ctx)
 
 
 def mh(ctx):
@@ -171,3 +172,35 @@ def conversions(ctx):
     ctx.check('C14.conv', 'HMC/NUTS accept paths', 'conversions', not bad and n >= 10, expected='every numeric conversion on these paths takes a primitive float/int (float->float and int->float never fail: NaN and inf map to NaN and inf)',
               found='; '.join(bad) or '%d conversions, all from primitive numerics' % n,
               why='a failing conversion (None) would be unwrapped into a panic instead of a rejection')
+
+
+def progress(ctx):
+    """while-loops on the NUTS paths: no disjunct of the continue-condition is loop-invariant (such a disjunct, once true,
+    keeps the loop running forever: the sampler would hang on exactly the inputs the loop is there for)"""
+    bstep, rec = locate(ctx)
+    bodies = []
+    if bstep is not None and rec and len(rec) == 1:
+        bodies.append(('NUTSChain::step', bstep, (strip_generics(rec[0]['path']),)))
+    fre = ctx.helper('nuts.fre')
+    if fre is not None:
+        bodies.append(('step-size heuristic (helper of NUTSChain::run)', fre, ()))
+    n = 0
+    for A, b, noinl in bodies:
+        ev = ctx.evaluate(b, no_inline=noinl)
+        wl = [ls for ls in ev.vf.loops if ls.kind == 'loop' and (ls.owner or '') == strip_generics(b['path'])]
+        for i, ls in enumerate(wl):
+            n += 1
+            brk = [e for e in ls.exits if e[0] == 'break']
+            lhs = set(ls.lh.values())
+            bad = []
+            for e in brk:
+                cont = T.lnot(e[2])
+                disj = cont[1] if cont[0] == 'or' else (cont,)
+                for d in disj:
+                    if not any(x in lhs for x in T.subterms(d)):
+                        bad.append(show(d)[:160])
+            ctx.check('C14.progress', A, 'while#%d' % i, bool(brk) and not bad, expected='every disjunct of the continue-condition depends on a value the loop body changes',
+                      found='loop-invariant disjunct(s): ' + '; '.join(bad) if bad else ('no exit' if not brk else 'all disjuncts depend on loop-carried values'), sp=ls.sp,
+                      why='necessary for termination: a loop-invariant disjunct that holds at entry can never become false, so the sampler would hang (e.g. on a non-finite first gradient)')
+    if n < 3:
+        ctx.unknown('C14.progress.floor', 'NUTS', 'while-loops', why='only %d while-loops found on the NUTS paths (3 confirmed on the reference tree)' % n)
